@@ -56,7 +56,7 @@ Next ==
        \E minted \in 1 .. MaxS : Provide(u, <<d1, d2>>, recv, minted)
   \/ \E u \in Users : st.S > 0 /\ \E amt \in 1 .. st.lp[u] :
        \E o1 \in OutChoices(1, amt), o2 \in OutChoices(2, amt) : Withdraw(u, amt, <<o1, o2>>)
-  \/ \E u \in Users, dir \in 1 .. 2, offer \in Amt : \E to \in {u, "collector"} : Swap(u, dir, offer, to)
+  \/ \E u \in Users, dir \in 1 .. 2, offer \in Amt : Swap(u, dir, offer, u)
   \/ \E s1 \in {0, st.fee[1]}, s2 \in {0, st.fee[2]} : Collect(<<s1, s2>>)
   \/ \E f \in FeeTriples : st' = SetFeesNext(st, f)
   \/ \E u \in Users, a \in 1 .. 2 : st.w[u][a] >= 1 /\ st' = DonateNext(st, u, a, 1)
